@@ -1,4 +1,5 @@
 mod cmd_backend;
+mod cmd_heapops;
 mod cmd_stages;
 mod cmd_fun2core;
 mod cmd_rt;
@@ -58,7 +59,7 @@ fn cmd_pm(seed: u64, n: usize, out: &mut dyn std::io::Write) {
 }
 
 fn main() {
-    std::panic::set_hook(Box::new(|_| {}));
+    if std::env::var("HARNESS_PANIC_TRACE").is_err() { std::panic::set_hook(Box::new(|_| {})); }
     let args: Vec<String> = std::env::args().collect();
     if args.len() < 2 { eprintln!("usage: harness <cmd> ..."); std::process::exit(2); }
     let arg = |i: usize| -> &str { args.get(i).map(|s| s.as_str()).unwrap_or("") };
@@ -74,6 +75,7 @@ fn main() {
             cmd_backend::cmd_codegen(which, num(2, 1), num(3, 0) as usize, &mut *out, &args[5.min(args.len())..]);
         }
         "c10-x86" => cmd_backend::cmd_c10("x86", num(2, 1), num(3, 0) as usize, &mut *out, &args[5.min(args.len())..]),
+        "heapops-x86" => cmd_heapops::cmd_heapops(num(2, 1), num(3, 50) as usize, &mut *out),
         "pm" => cmd_pm(num(2, 1), num(3, 100) as usize, &mut *out),
         "stages" => cmd_stages::cmd_stages(num(2, 1), num(3, 0) as usize, args.get(5..).unwrap_or(&[]), &mut *out),
         "fun2core" => cmd_fun2core::cmd_fun2core(num(2, 1), num(3, 0) as usize, args.get(5..).unwrap_or(&[]), &mut *out),
